@@ -11,6 +11,24 @@ CHECKS = {
          "Trusted: the reference predicate evaluator in harness/internal/ref, the generator's domain restrictions listed in the evidence assumptions.", "DESIGN.md §6 C01"),
 }
 
+TRUST = "Trusted: the harness's reference model / metamorphic relation for this property (harness/internal/ref, harness/props), the generator's stated domain restrictions (evidence.assumptions), the Go toolchain. Sampled exploration of the real code: says nothing about inputs the workload did not produce."
+def expl(pid, tech, text):
+    CHECKS[pid] = ("exploration", tech, text, TRUST, "DESIGN.md §6 " + pid)
+expl("C02", "runtime monitoring: differential oracle (bit-exact reference expression evaluator) over real executions",
+     "Held on every generated (table, select list, WHERE) explored: row count, exact key set and bit-exact values against a reference evaluator doing the same IEEE-754 operations.")
+expl("C03", "runtime monitoring: differential oracle (reference group-by, sequence-exact) + conservation law + repeated-run determinism",
+     "Held on every generated grouped / whole-table aggregate query explored, each run several times on fresh copies: groups in first-appearance order, members in source order, exact aggregates, sum(COUNT(*)) = filtered rows.")
+expl("C04", "runtime monitoring: differential oracle (nested-loop reference multiset) across every strategy spelling + metamorphic ON re-spellings; Go race detector with hook-injected yields for the PARALLEL variants",
+     "Held on every generated (tables, ON tree, join type) explored under every strategy spelling; PARALLEL variants additionally repeated under -race with yields inside the join goroutines (distinct output orders observed are reported).")
+expl("C05", "runtime monitoring: permutation + adjacent-pair order + window oracle over three real executions",
+     "Held on every generated ORDER BY / LIMIT / OFFSET query explored: permutation of the unordered result, every adjacent pair ordered, NULL-last, exact window (length, key tuples, membership), never an error.")
+expl("C06", "runtime monitoring: metamorphic oracle (first-occurrence dedup / left fold of the branches' real outputs) with deep typed equality",
+     "Held on every generated DISTINCT query and UNION chain explored, including look-alike values that collide under textual fingerprints.")
+expl("C07", "runtime monitoring: metamorphic oracle (composed vs staged real executions), per-row standalone subquery executions, reference predicate for EXISTS",
+     "Held on every generated CTE / derived-table / subquery / EXISTS pipeline explored.")
+expl("C08", "runtime monitoring: metamorphic oracle (nested result vs per-inner-array real executions; mix=> vs concatenation)",
+     "Held on every generated multi-dimensional FROM query explored (depth 2..3, ragged, empty inner arrays).")
+
 def main():
     props = [json.loads(l) for l in open(os.path.join(ROOT, "properties.jsonl"))]
     hooks_commits = []
